@@ -1,6 +1,9 @@
 import BronVerif.Drive.Common
 import BronVerif.Model.Curves
 import BronVerif.Model.Sig
+import BronVerif.Model.Hash.Sha2
+import BronVerif.Model.Hash.Keccak
+import BronVerif.Model.Hash.Blake2b
 /-!
 Driver handlers for C15 (single-party signatures).
 
@@ -98,21 +101,81 @@ def allDistinct {α} [DecidableEq α] : List α → Bool
   | [] => true
   | x :: xs => !(xs.contains x) && allDistinct xs
 
+/-- the hash models available for exact recomputation (SHA-1 is not modelled: its digest is taken from
+the line, computed there by Go's crypto/sha1) -/
+def hashByName? (name : String) : Option (ByteArray → ByteArray) :=
+  match (name.splitOn "-rfc6979").headD name with
+  | "sha256" => some Hash.sha256
+  | "sha512" => some Hash.sha512
+  | "sha224" => some Hash.sha224
+  | "sha384" => some Hash.sha384
+  | "sha512-256" => some Hash.sha512_256
+  | "sha3-256" => some Hash.sha3_256
+  | "sha3-512" => some Hash.sha3_512
+  | "blake2b-256" => some Hash.blake2b256
+  | _ => none
+
+/-- message digest: recomputed from the message when the hash is modelled (`none` when the recomputed
+digest differs from the one Go's standard library produced — a broken hash model, not a property
+failure), else the digest of the line -/
+def digestOf (hash : String) (msg lineDigest : ByteArray) : Option ByteArray :=
+  match hashByName? hash with
+  | none => some lineDigest
+  | some h => let d := h msg; if d.data == lineDigest.data then some d else none
+
+/-- canonical point encodings hashed by the configurable Schnorr challenge: SEC1 compressed for
+k256/p256, RFC 8032 for ed25519 -/
+def encodePoint {C : Params} (P : CPt C) : Option ByteArray :=
+  match P.pt.coords with
+  | some ([x], [y]) =>
+    if C.name == "k256" || C.name == "p256" then
+      some (ByteArray.mk #[if y % 2 == 0 then 2 else 3] ++ natToBytesBE x 32)
+    else if C.name == "ed25519" then
+      if Curves.isZero C P.pt then none else
+      some (natToBytesLE (y + (x % 2) * 2 ^ 255) 32)
+    else none
+  | _ => none
+
+/-- configurable-Schnorr challenge `H(R ‖ P ‖ m)` (digest byte-reversed when `le`), reduced mod `n` -/
+def schnorrChallenge {C : Params} [NeZero C.n] (hash : String) (le : Bool) (R pk : CPt C) (msg : ByteArray) : Option (Fp C.n) :=
+  match hashByName? hash, encodePoint R, encodePoint pk with
+  | some h, some rb, some pb =>
+    let d := h (rb ++ pb ++ msg)
+    some (Fp.ofNat C.n (if le then bytesToNatLE d else bytesToNatBE d))
+  | _, _, _ => none
+
+/-- BIP-340 challenge: tagged SHA-256 of `x(R) ‖ x(P) ‖ m`, reduced mod `n` -/
+def bip340Challenge {C : Params} [NeZero C.n] (R pk : CPt C) (msg : ByteArray) : Option (Fp C.n) :=
+  match xOf R, xOf pk with
+  | some rx, some px =>
+    let tag := Hash.sha256 "BIP0340/challenge".toUTF8
+    some (Fp.ofNat C.n (bytesToNatBE (Hash.sha256 (tag ++ tag ++ natToBytesBE rx 32 ++ natToBytesBE px 32 ++ msg))))
+  | _, _ => none
+
+/-- use the recomputed challenge when available; it must agree with the value in the line -/
+def withChallenge {n : Nat} (key : String) (model : Option (Fp n)) (line : Fp n) (k : Fp n → Verdict) : Verdict :=
+  match model with
+  | none => k line
+  | some e => if e = line then k e else .bad key ("challenge recomputed from the message = " ++ e.toHex ++ ", library/harness value = " ++ line.toHex)
+
 def handle (op : String) (args : List String) (rhs : String) : Verdict :=
   match op, args with
   /- ecdsa.verify <curve> <hash> <d|s> <pk> <msg> <digest> <r> <s> <v|-> <tag> => accept|reject -/
-  | "ecdsa.verify", [cn, _hash, mode, pks, _msg, dg, rs, ss, vs, _tag] => withCurve cn fun C =>
-    match parsePt C pks, hexToBytes? dg, hexToNat? rs, hexToNat? ss, parseV vs with
-    | some pk, some digest, some r, some s, some v =>
+  | "ecdsa.verify", [cn, hash, mode, pks, msgs, dg, rs, ss, vs, _tag] => withCurve cn fun C =>
+    match parsePt C pks, hexToBytes? dg, hexToNat? rs, hexToNat? ss, parseV vs, hexToBytes? msgs with
+    | some pk, some lineDigest, some r, some s, some v, some msg =>
       if r ≥ C.n ∨ s ≥ C.n then .unsupported "r/s out of range" else
+      match digestOf hash msg lineDigest with
+      | none => .diff "digest recomputed by the Lean hash model differs from the Go stdlib digest"
+      | some digest =>
       let e := digestToScalar C.n digest
       let model := ecdsaVerify xr (liftR C) lowS (mode == "s") (gen' C) pk e (Fp.ofNat C.n r, Fp.ofNat C.n s, v)
       spec "ecdsa-verify" (acc model) rhs
-    | _, _, _, _, _ => .unsupported "args"
+    | _, _, _, _, _, _ => .unsupported "args"
   /- ecdsa.sign <curve> <hash> <sk> <msg> <digest> => r,s,v : the produced signature must verify for
      pk = sk•g with the recovery id present (hence v is the true one) -/
-  | "ecdsa.sign", [cn, _hash, sks, _msg, dg] => withCurve cn fun C =>
-    match fpOf C.n sks, hexToBytes? dg, rhs.splitOn "," with
+  | "ecdsa.sign", [cn, hash, sks, msgs, dg] => withCurve cn fun C =>
+    match fpOf C.n sks, (hexToBytes? dg).bind (fun d => (hexToBytes? msgs).bind fun m => digestOf hash m d), rhs.splitOn "," with
     | some sk, some digest, [rs, ss, vs] =>
       match fpOf C.n rs, fpOf C.n ss, vs.toNat? with
       | some r, some s, some v =>
@@ -141,40 +204,46 @@ def handle (op : String) (args : List String) (rhs : String) : Verdict :=
       spec "ecdsa-normalise" (r'.toHex ++ "," ++ s'.toHex ++ "," ++ renderV v' ++ "," ++ (if lowS s' then "low" else "high")) rhs
     | _, _, _ => .unsupported "args"
   /- schnorr.verify <curve> <neg 0|1> <pk> <R> <s> <e> <msg> <tag> => accept|reject -/
-  | "schnorr.verify", [cn, negs, pks, Rs, ss, es, _msg, _tag] => withCurve cn fun C =>
-    match parsePt C pks, parsePt C Rs, fpOf C.n ss, fpOf C.n es with
-    | some pk, some R, some s, some e =>
-      spec "schnorr-verify" (acc (schnorrVerify tf (negs == "1") (gen' C) pk R e s)) rhs
-    | _, _, _, _ => .unsupported "args"
+  | "schnorr.verify", [cn, cfg, pks, Rs, ss, es, msgs, _tag] => withCurve cn fun C =>
+    match cfg.splitOn ".", parsePt C pks, parsePt C Rs, fpOf C.n ss, fpOf C.n es, hexToBytes? msgs with
+    | [negs, les, hash], some pk, some R, some s, some eLine, some msg =>
+      withChallenge "schnorr-challenge" (schnorrChallenge hash (les == "1") R pk msg) eLine fun e =>
+        spec "schnorr-verify" (acc (schnorrVerify tf (negs == "1") (gen' C) pk R e s)) rhs
+    | _, _, _, _, _, _ => .unsupported "args"
   /- schnorr.sign <curve> <neg> <sk> <e> <msg> => R,s : the signature verifies for pk = sk•g -/
-  | "schnorr.sign", [cn, negs, sks, es, _msg] => withCurve cn fun C =>
-    match fpOf C.n sks, fpOf C.n es, rhs.splitOn "," with
-    | some sk, some e, [Rs, ss] =>
+  | "schnorr.sign", [cn, cfg, sks, es, msgs] => withCurve cn fun C =>
+    match cfg.splitOn ".", fpOf C.n sks, fpOf C.n es, hexToBytes? msgs, rhs.splitOn "," with
+    | [negs, les, hash], some sk, some eLine, some msg, [Rs, ss] =>
       match parsePt C Rs, fpOf C.n ss with
       | some R, some s =>
-        if schnorrVerify tf (negs == "1") (gen' C) (sk • gen' C) R e s then .ok
-        else .bad "schnorr-sign-invalid" "signature produced by Sign does not verify in the model"
+        let pk : CPt C := sk • gen' C
+        withChallenge "schnorr-challenge" (schnorrChallenge hash (les == "1") R pk msg) eLine fun e =>
+          if schnorrVerify tf (negs == "1") (gen' C) pk R e s then .ok
+          else .bad "schnorr-sign-invalid" "signature produced by Sign does not verify in the model"
       | _, _ => .bad "schnorr-sign-invalid" ("unparsable signature " ++ rhs)
-    | some _, some _, _ => .bad "schnorr-sign-failed" ("Sign returned " ++ rhs)
-    | _, _, _ => .unsupported "args"
+    | [_, _, _], some _, some _, some _, _ => .bad "schnorr-sign-failed" ("Sign returned " ++ rhs)
+    | _, _, _, _, _ => .unsupported "args"
   /- bip340.verify <pk> <R> <s> <e> <msg> <tag> => accept|reject   (e = challenge for (x R, x pk, msg)) -/
-  | "bip340.verify", [pks, Rs, ss, es, _msg, _tag] => withCurve "k256" fun C =>
-    match parsePt C pks, parsePt C Rs, fpOf C.n ss, fpOf C.n es with
-    | some pk, some R, some s, some e =>
-      spec "bip340-verify" (acc (bip340Verify xOf evenY (gen' C) pk R e s)) rhs
-    | _, _, _, _ => .unsupported "args"
+  | "bip340.verify", [pks, Rs, ss, es, msgs, _tag] => withCurve "k256" fun C =>
+    match parsePt C pks, parsePt C Rs, fpOf C.n ss, fpOf C.n es, hexToBytes? msgs with
+    | some pk, some R, some s, some eLine, some msg =>
+      withChallenge "bip340-challenge" (bip340Challenge R pk msg) eLine fun e =>
+        spec "bip340-verify" (acc (bip340Verify xOf evenY (gen' C) pk R e s)) rhs
+    | _, _, _, _, _ => .unsupported "args"
   /- bip340.sign <sk> <e> <msg> => R,s : verifies for sk•g and R has even y (so x-only encoding is faithful) -/
-  | "bip340.sign", [sks, es, _msg] => withCurve "k256" fun C =>
-    match fpOf C.n sks, fpOf C.n es, rhs.splitOn "," with
-    | some sk, some e, [Rs, ss] =>
+  | "bip340.sign", [sks, es, msgs] => withCurve "k256" fun C =>
+    match fpOf C.n sks, fpOf C.n es, hexToBytes? msgs, rhs.splitOn "," with
+    | some sk, some eLine, some msg, [Rs, ss] =>
       match parsePt C Rs, fpOf C.n ss with
       | some R, some s =>
-        if !(evenY R) then .bad "bip340-sign-odd-R" "Sign returned R with odd y"
-        else if bip340Verify xOf evenY (gen' C) (sk • gen' C) R e s then .ok
-        else .bad "bip340-sign-invalid" "signature produced by Sign does not verify in the model"
+        let pk : CPt C := sk • gen' C
+        withChallenge "bip340-challenge" (bip340Challenge R pk msg) eLine fun e =>
+          if !(evenY R) then .bad "bip340-sign-odd-R" "Sign returned R with odd y"
+          else if bip340Verify xOf evenY (gen' C) pk R e s then .ok
+          else .bad "bip340-sign-invalid" "signature produced by Sign does not verify in the model"
       | _, _ => .bad "bip340-sign-invalid" ("unparsable signature " ++ rhs)
-    | some _, some _, _ => .bad "bip340-sign-failed" ("Sign returned " ++ rhs)
-    | _, _, _ => .unsupported "args"
+    | some _, some _, some _, _ => .bad "bip340-sign-failed" ("Sign returned " ++ rhs)
+    | _, _, _, _ => .unsupported "args"
   /- bls.new <curve> <point> => ok|err : constructors admit exactly the non-identity subgroup points -/
   | "bls.new", [cn, ps] => withCurve cn fun C =>
     match parsePt C ps with
